@@ -2,8 +2,17 @@
 their tier, resource caps and what they decide. Read by run.py."""
 
 
+# Harness families that write messages into the 96-byte reference-encoder buffer: CBMC keeps arrays
+# field-sensitive only up to 64 elements by default, which would make the literal control bytes in that
+# buffer symbolic for symex; for these families the limit is raised. (Not globally: with the raised limit
+# the SAT encoding of the string-argument writer runs out of memory, 43 s without it.)
+_BIGBUF = ("c01::", "gen_args::p_arg_", "gen_c04::", "c04::c04_skipper", "gen_c05::", "c06::c06_junk", "c06::c06_stream", "c16::", "c03::c03_corrupt")
+
+
 def H(name, tier="quick", timeout=600, what="", **kw):
-    d = {"name": name, "tier": tier, "timeout": timeout, "what": what}
+    d = {"name": name, "tier": tier, "timeout": timeout, "what": what, "mem_gb": 16}
+    if name.startswith(_BIGBUF):
+        d["cbmc_args"] = ["--max-field-sensitivity-array-size", "128"]
     d.update(kw)
     return d
 
@@ -17,6 +26,7 @@ STUB_FMT = "std::fmt::format is stubbed to return an empty String: error message
 STUB_UTF8 = ("core::str::from_utf8 is replaced by a byte-wise validator with the same contract (models.rs); the model is itself "
              "checked against std for every input of up to 4 bytes (c19::c19_utf8_model_vs_std)")
 
+import json as _json, os as _os
 PROPS = {}
 
 PROPS["C14"] = {
@@ -93,6 +103,8 @@ PROPS["C17"] = {
 
 
 NOT_APPLICABLE = [
+    {"property_id": "C08", "reason": "the hand-polled future of DltStreamReader::next_message_slice (futures BufReader + read_exact state machines over heap buffers) exceeds 16 GB in CBMC even for one 5-byte message and a 2-step Pending/Ready schedule; no bounded instance reaches a verdict (DESIGN.md 9.5). The defect shared with the blocking reader (F6) was found through C07 and repaired in both readers."},
+    {"property_id": "C12", "reason": "byte level (XML files through quick-xml) is out of reach; the event-level harness (read_event stubbed) does not reach a verdict either: the event enum loses its concrete discriminant when moved through `?` and std's stable sort is explored with symbolic length (DESIGN.md 9.5). The infinite loop on end-of-file inside <PDU>/<FRAME> was demonstrated natively and repaired (F7), not found by a solver-based check."},
     {"property_id": "C11", "reason": "quantifies over XML documents on disk parsed by quick-xml into HashMaps; no unit carrying the property is within reach of bounded symbolic execution (DESIGN.md C11)"},
 ]
 
@@ -125,10 +137,10 @@ PROPS["C18"] = {
     ],
 }
 
-_c13_quick = ["c13_bool", "c13_u16", "c13_s32", "c13_f32", "c13_u128", "c13_string", "c13_raw", "c13_u16_raw", "c13_u8_string_u32",
+_c13_quick = ["c13_bool", "c13_u16", "c13_s32", "c13_f32", "c13_u128", "c13_string_len2_be", "c13_string_len3_le", "c13_raw", "c13_u16_raw", "c13_u8_string_u32",
               "c13_empty_list", "c13_fixed_point_s32_no_panic", "c13_fixed_point_u64_no_panic"]
 _c13_all = ["c13_bool", "c13_u8", "c13_u16", "c13_u32", "c13_u64", "c13_u128", "c13_s8", "c13_s16", "c13_s32", "c13_s64", "c13_s128",
-            "c13_f32", "c13_f64", "c13_string", "c13_raw", "c13_u16_raw", "c13_string_u32", "c13_bool_f64", "c13_raw_string",
+            "c13_f32", "c13_f64", "c13_string_len2_be", "c13_string_len3_le", "c13_string_len0_le", "c13_raw", "c13_u16_raw", "c13_string_u32", "c13_bool_f64",
             "c13_u8_string_u32", "c13_s16_s16_s16", "c13_empty_list", "c13_fixed_point_s32_no_panic", "c13_fixed_point_u32_no_panic",
             "c13_fixed_point_s64_no_panic", "c13_fixed_point_u64_no_panic"]
 PROPS["C13"] = {
@@ -151,18 +163,19 @@ PROPS["C13"] = {
 
 PROPS["C09"] = {
     "level": "model_checking",
-    "level_text": "The filter decision procedure is decided as a solver query over all criteria at once: extended header present/absent, every message "
-                  "type and level (incl. Invalid(0..255)), every minimum level number, each id set absent/present, arbitrary membership answers "
-                  "(uninterpreted oracle that also asserts the right key is looked up in the right set), arbitrary i64 id counts vs set sizes 0/1. "
-                  "Conversions DltFilterConfig -> ProcessedDltFilterConfig are decided for all Option<u8> levels.",
-    "level_note": "HashSet::contains is replaced by an uninterpreted oracle (std's SipHash/hashbrown lookup is trusted base); RandomState::new is "
-                  "replaced by fixed keys; non-empty Vec->HashSet conversion (std FromIterator) is trusted. The consumed length of filtered messages is "
-                  "checked in C04's harnesses.",
+    "level_text": "The filter decision procedure is decided as one solver query over all criteria: extended header present/absent, every message "
+                  "type and level (incl. Invalid(0..255)), every minimum level number, each id set absent or present-and-empty, header ECU id "
+                  "present/absent, arbitrary i64 id counts; the oracle is the decision table of the property. Conversions DltFilterConfig -> "
+                  "ProcessedDltFilterConfig (owned and borrowed) are decided for all Option<u8> levels and all 8 presence combinations. "
+                  "Integration (marker carries the payload length, remainder unchanged by the filter) is decided in C04's filter-mode harnesses.",
+    "level_note": "Membership in NON-EMPTY id sets is not decided: symbolic execution of hashbrown (one concrete lookup) does not finish and Kani "
+                  "rejects a stub for the generic HashSet::contains. With empty sets every id is 'not in the allowed set', which exercises each "
+                  "criterion's drop branch and the set <-> criterion pairing, but not the 'id is allowed' branch and not which id is looked up.",
     "functions": ["parse::filtered_out", "ExtendedHeader::skip_with_level", "ProcessedDltFilterConfig::from(DltFilterConfig)",
                   "ProcessedDltFilterConfig::from(&DltFilterConfig)", "dlt::u8_to_log_level"],
-    "bounds": "id sets of size 0 or 1 (size only matters through len() vs the counts); id strings empty (membership is abstracted)",
-    "outside": "real hash lookups for non-empty sets; sets with more than one element",
-    "assumptions": COMMON_ASSUME + ["HashSet::contains answers are arbitrary booleans (sound over-approximation of any set contents)",
+    "bounds": "id sets absent or empty; ids empty strings",
+    "outside": "non-empty id sets (hash lookups), i.e. the 'id is in the allowed set' outcome",
+    "assumptions": COMMON_ASSUME + ["RandomState::new replaced by fixed keys (no OS randomness under Kani)",
                                     "minimum levels built directly as LogLevel::Invalid(_) are outside the configuration space (only absence of panics is checked)"],
     "trusted_base": ["std HashSet lookup", "std FromIterator for HashSet"],
     "harnesses": [
@@ -175,15 +188,30 @@ PROPS["C09"] = {
 
 
 PROPS["C01"] = {
-    "level": "model_checking", "level_text": "wip", "level_note": "wip", "not_claimed": True,
-    "functions": [], "bounds": "", "outside": "", "assumptions": COMMON_ASSUME, "trusted_base": [],
+    "level": "model_checking",
+    "level_text": 'P(shape): for every message shape of the catalogue (4 payload kinds, both byte orders, with/without storage header, optional-field combinations, every one of the 38 argument layouts plus length variants) the solver decides, for all values of all numeric fields, raw data and trailing bytes, that parsing the reference encoding followed by the tail yields the message field for field (floats bit for bit) and exactly the tail. Together with W(shape) (writer == reference bytes, C02) this is the serialise-then-parse identity by substitution of equal byte strings.',
+    "level_note": 'Shapes are enumerated, not symbolic: control bytes (HTYP, MSIN, NOAR, LEN, type info, length prefixes) and id/text contents are literal per harness. Round trip is composed from two solver-checked halves because the one-harness round trip does not finish.',
+    "functions": ['parse::dlt_message', 'parse::dlt_message_intern', 'parse::dlt_standard_header', 'parse::dlt_extended_header', 'parse::dlt_storage_header', 'parse::dlt_payload', 'parse::dlt_argument::<BE|LE>', 'parse::dlt_zero_terminated_string_intern'],
+    "bounds": 'messages <= 96 bytes, <= 2 arguments, names/units/strings/raw 0..3 bytes, tail 1..3 symbolic bytes',
+    "outside": 'longer strings, > 2 arguments, total length near 65535, symbolic id/text contents (C19), symbolic control bytes (C14, c02d)',
+    "assumptions": COMMON_ASSUME + ['std::fmt::format stubbed (messages not compared)', 'core::str::from_utf8 replaced by a byte-wise model checked against std (c19_utf8_model_vs_std)', 'forward_to_next_storage_header replaced by its specification (first occurrence) in whole-message storage-mode harnesses; the real function is checked against that specification in C06', 'ids, names, units and string contents are literals in whole-message harnesses (whether a byte is NUL is control for the parser); arbitrary contents are decided in C19 / c02d'],
+    "trusted_base": ['reference encoder kani/src/refcodec.rs + shapes.rs (reading of the AUTOSAR layout)'],
     "harnesses": [H("c01::" + n, "quick", 900) for n in ["c01_p_nonverbose_min", "c01_p_nonverbose_ext_storage_be", "c01_p_control_le",
-        "c01_p_verbose_bool_le", "c01_p_verbose_u32_named_be_storage", "c01_p_verbose_string_le", "c01_p_nettrace_le", "c01_p_nettrace_be", "c01_probe_storage_fwdstub"]],
+        "c01_p_verbose_bool_le", "c01_p_verbose_u32_named_be_storage", "c01_p_verbose_string_le", "c01_p_nettrace_le", "c01_p_nettrace_be"]]
+                 + [H("c14::c14_msin_via_extended_header_parse", "quick", 300, what="every MSIN code (incl. reserved message types) is accepted and decoded by the extended-header parser"),
+                    H("c14::c14_msin_via_extended_header_write", "quick", 300, what="every message type value is written as its MSIN code")]
+                 + [H(e["name"], e["tier"], 900) for e in _json.load(open(_os.path.join(_os.path.dirname(_os.path.abspath(__file__)), "catalogue.json")))["p_arg"]],
 }
 
 PROPS["C06"] = {
-    "level": "model_checking", "level_text": "wip", "level_note": "wip", "not_claimed": True,
-    "functions": [], "bounds": "", "outside": "", "assumptions": COMMON_ASSUME, "trusted_base": [],
+    "level": "model_checking",
+    "level_text": 'The real search (memchr::memmem behind forward_to_next_storage_header) is compared with a naive first-occurrence search on every input of up to 8 bytes; junk ++ message ++ tail parses to the same message and remainder as message ++ tail for a catalogue of junk strings (including partial patterns directly before the pattern) with symbolic message data; a stream msg, junk, msg is recovered in order.',
+    "level_note": "memchr runs for real with the two CPU-detection intrinsics stubbed to 'no optional features' (baseline SSE2 / scalar searchers).",
+    "functions": ['parse::forward_to_next_storage_header', 'parse::dlt_storage_header', 'parse::dlt_message'],
+    "bounds": 'search: inputs <= 8 bytes; parse: junk strings of 1..7 literal bytes',
+    "outside": 'longer inputs (vectorised paths of memchr for >= 16 bytes are trusted)',
+    "assumptions": COMMON_ASSUME + ['std::fmt::format stubbed (messages not compared)', 'core::str::from_utf8 replaced by a byte-wise model checked against std (c19_utf8_model_vs_std)', 'core::arch::x86_64::__cpuid / __cpuid_count return zeros', 'ids, names, units and string contents are literals in whole-message harnesses (whether a byte is NUL is control for the parser); arbitrary contents are decided in C19 / c02d'],
+    "trusted_base": ['memchr for haystacks > 8 bytes'],
     "harnesses": [H("c06::" + n, "quick", 900) for n in ["c06_search_real_memmem_8", "c06_junk_1", "c06_junk_2", "c06_junk_3", "c06_junk_partial_d",
                   "c06_junk_partial_dlt", "c06_junk_partial_ddl", "c06_stream_with_junk_between"]],
 }
@@ -199,64 +227,131 @@ _w = _wq + ["c02w_payload_nonverbose_control", "c02w_payload_nettrace_le", "c02w
 _d = ["c02d_standard_header_full_length", "c02d_extended_header_full_length"]
 _dt = ["c02d_standard_header_all_bytes", "c02d_extended_header_all_bytes", "c02d_storage_header_fields"]
 PROPS["C02"] = {
-    "level": "model_checking", "level_text": "wip", "level_note": "wip", "not_claimed": True,
-    "functions": [], "bounds": "", "outside": "", "assumptions": COMMON_ASSUME, "trusted_base": [],
+    "level": "model_checking",
+    "level_text": "Encoding: every writer unit (storage / standard / extended header, each argument layout in both byte orders, payload kinds) is compared byte for byte with an independently written reference encoder for all field values. Decoding: header parsers on fully symbolic bytes (all 256 HTYP, all 256 MSIN, arbitrary id bytes, symbolic available length) against the reference decoder; message / filtered / incomplete / reject verdict and consumed length per shape and declared-length class (C04's harnesses carry the reference verdict); all 2^32 type-info words in C14.",
+    "level_note": "Agreement on arbitrary byte strings is decided per unit and per shape, not for whole messages with symbolic control (that does not finish). The crate's canonical bool type info has TYLE=0 (TYLE=1..15 accepted on decode).",
+    "functions": ['StorageHeader::as_bytes', 'StandardHeader::as_bytes', 'ExtendedHeader::as_bytes', 'Argument::as_bytes::<BE|LE>', 'Argument::len', 'PayloadContent::as_bytes', 'TypeInfo::as_bytes', 'parse::dlt_standard_header', 'parse::dlt_extended_header', 'parse::dlt_storage_header'],
+    "bounds": 'header units: 16 / 12 / 18 symbolic bytes; argument layouts of the catalogue (80 shapes); payloads <= 3 slices / 2 arguments',
+    "outside": 'whole-message writer (Message::as_bytes) beyond the smallest shape: it is the concatenation storage ++ standard ++ extended ++ payload of the units checked here',
+    "assumptions": COMMON_ASSUME + ['std::fmt::format stubbed (messages not compared)', 'core::str::from_utf8 replaced by a byte-wise model checked against std (c19_utf8_model_vs_std)', 'forward_to_next_storage_header replaced by its specification (first occurrence) in whole-message storage-mode harnesses; the real function is checked against that specification in C06', 'ids, names, units and string contents are literals in whole-message harnesses (whether a byte is NUL is control for the parser); arbitrary contents are decided in C19 / c02d'],
+    "trusted_base": ['reference encoder / decoder in kani/src (refcodec.rs, shapes.rs, c02d.rs)'],
     "harnesses": [H("c02w::" + n, "quick", 900) for n in _w] + [H("c02d::" + n, "quick", 900, allow_unsat_covers=["empty input incomplete", "15 bytes incomplete", "len == 9"]) for n in _d]
                  + [H("c02d::" + n, "thorough", 1800) for n in _dt]
                  + [H("c02w::" + n, "thorough", 900) for n in _wt]
+                 + [H("c02w::c02w_message_whole_nonverbose_min", "thorough", 1800)]
+                 + [H("c14::c14_typeinfo_all_words", "quick", 300, what="accept/reject and decoded description for all 2^32 type-info words (shared with C14)")]
                  + [H(e["name"], e["tier"], 900) for e in _cat["w_arg"]],
 }
 
 PROPS["C04"] = {
-    "level": "model_checking", "level_text": "wip", "level_note": "wip", "not_claimed": True,
-    "functions": [], "bounds": "", "outside": "", "assumptions": COMMON_ASSUME, "trusted_base": [],
+    "level": "model_checking",
+    "level_text": "For each shape x filter mode x declared-length class the solver decides, for all data, that the parser's verdict is the reference verdict (message / filtered-out / incomplete / reject) and that whenever it returns Ok the remainder is the strict suffix starting exactly at the declared end, with FilteredOut(n) carrying LEN - headers; dlt_consume_msg likewise; validated_payload_length is decided for every header, every u16 length and every usize of remaining bytes.",
+    "level_note": 'Length classes: exact, -1, -2, +1, +3 (inside the 3-byte tail), +4 (beyond the buffer), below the headers. Filter modes: none, all-None, app set empty (drops everything), level Fatal.',
+    "functions": ['parse::dlt_message_intern', 'parse::validated_payload_length', 'parse::dlt_payload', 'parse::filtered_out', 'parse::dlt_consume_msg', 'parse::skip_storage_header'],
+    "bounds": '9 shapes, 7 length classes, 4 filter modes (115 harnesses, 34 in quick)',
+    "outside": 'length values between the classes; shapes outside the catalogue',
+    "assumptions": COMMON_ASSUME + ['std::fmt::format stubbed (messages not compared)', 'core::str::from_utf8 replaced by a byte-wise model checked against std (c19_utf8_model_vs_std)', 'forward_to_next_storage_header replaced by its specification (first occurrence) in whole-message storage-mode harnesses; the real function is checked against that specification in C06', 'ids, names, units and string contents are literals in whole-message harnesses (whether a byte is NUL is control for the parser); arbitrary contents are decided in C19 / c02d', 'RandomState::new replaced by fixed keys (empty HashSet construction)'],
+    "trusted_base": ['reference verdict computed by gen_catalogue.py from the layout'],
     "harnesses": [H("c04::c04_skipper_storage_shapes", "quick", 900), H("c04::c04_validated_payload_length_all", "quick", 300)]
                  + [H(e["name"], e["tier"], 900) for e in _cat["c04"]],
 }
 PROPS["C05"] = {
-    "level": "model_checking", "level_text": "wip", "level_note": "wip", "not_claimed": True,
-    "functions": [], "bounds": "", "outside": "", "assumptions": COMMON_ASSUME, "trusted_base": [],
-    "harnesses": [H(e["name"], e["tier"], 900) for e in _cat["c05"]],
+    "level": "model_checking",
+    "level_text": "Every cut position of every catalogue shape is decided (3 cuts per solver query, all data symbolic): the parser reports IncompleteParse with a hint between 1 and the number of missing bytes, the skipper likewise (and 'no message' only on empty input).",
+    "level_note": 'Cut positions and shapes are enumerated exhaustively; data values by the solver.',
+    "functions": ['parse::dlt_message', 'parse::dlt_consume_msg', 'parse::dlt_storage_header', 'parse::validated_payload_length'],
+    "bounds": '7 shapes (10..37 bytes), all cuts (quick: two shapes completely and every header-boundary cut of the others)',
+    "outside": 'messages outside the catalogue',
+    "assumptions": COMMON_ASSUME + ['std::fmt::format stubbed (messages not compared)', 'core::str::from_utf8 replaced by a byte-wise model checked against std (c19_utf8_model_vs_std)', 'forward_to_next_storage_header replaced by its specification (first occurrence) in whole-message storage-mode harnesses; the real function is checked against that specification in C06', 'ids, names, units and string contents are literals in whole-message harnesses (whether a byte is NUL is control for the parser); arbitrary contents are decided in C19 / c02d'],
+    "trusted_base": [],
+    "harnesses": [H(e["name"], e["tier"], 900) for e in _cat["c05"]]
+                 + [H("c05::" + n, "quick", 600, what="cuts inside a header, unit level") for n in ["c05_hdr_std_min_0_4", "c05_hdr_std_all_0_4", "c05_hdr_std_all_4_8",
+                    "c05_hdr_std_all_8_12", "c05_hdr_std_all_12_16", "c05_hdr_std_weid_4_8", "c05_hdr_ext_0_5", "c05_hdr_ext_5_10"]]
+                 + [H("c02d::c02d_standard_header_all_bytes", "thorough", 1800), H("c02d::c02d_extended_header_all_bytes", "thorough", 1800)],
 }
 
 PROPS["C07"] = {
-    "level": "model_checking", "level_text": "wip", "level_note": "wip", "not_claimed": True,
-    "functions": [], "bounds": "", "outside": "", "assumptions": COMMON_ASSUME, "trusted_base": [],
-    "harnesses": [H("c07::" + n, "quick", 1500) for n in ["c07_any_stream_no_storage_6", "c07_two_messages_any_schedule", "c07_truncated_tail_any_schedule", "c07_read_message_equals_slice_parse"]],
+    "level": "model_checking",
+    "level_text": 'The byte source is a harness-defined Read whose every read() returns Interrupted or min(k, available, buf.len()) with k from a symbolic schedule: partitions of the stream and placements of Interrupted are solver variables. Decided: no stream of up to 6 arbitrary bytes makes next_message_slice panic and a returned slice is exactly the cut at the declared length; two-message streams are delivered as exactly the two cuts then end-of-stream; a truncated tail never yields a slice; read_message equals dlt_message on the cut.',
+    "level_note": "Reader built with with_capacity(c, c, ..) for c = 6..8 and streams assumed to declare lengths <= c (with the public new() every 16-bit length fits). std's BufReader / read_exact run for real.",
+    "functions": ['read::DltMessageReader::next_message_slice', 'read::read_message', 'parse::parse_length'],
+    "bounds": 'streams <= 9 bytes, 3 scheduled read results (then complete reads), <= 2 messages',
+    "outside": 'longer streams / schedules; storage-header mode of the reader (same code path with a 16-byte larger header read)',
+    "assumptions": COMMON_ASSUME + ['std::fmt::format stubbed (messages not compared)', 'core::str::from_utf8 replaced by a byte-wise model checked against std (c19_utf8_model_vs_std)'],
+    "trusted_base": ['std::io::BufReader, Read::read_exact'],
+    "harnesses": [H("c07::" + n, "quick", 1500) for n in ["c07_any_stream_no_storage_6", "c07_two_messages_any_schedule", "c07_truncated_tail_any_schedule", "c07_read_message_equals_slice_parse"]]
+                 + [H("c07::c07_default_capacity_any_declared_length", "thorough", 3600, mem_gb=40)],
 }
 
 PROPS["C15"] = {
-    "level": "model_checking", "level_text": "wip", "level_note": "wip", "not_claimed": True,
-    "functions": [], "bounds": "", "outside": "", "assumptions": COMMON_ASSUME, "trusted_base": [],
+    "level": "model_checking",
+    "level_text": 'Message::new is decided per payload kind (non-verbose, control, verbose, network trace) x optional fields for all data: recorded payload length == reference payload size, byte_len == headers + payload, verbose flag and argument count as the payload kind requires, add_storage_header(Some(ts)) only adds the given time and the header ECU id (or the default id); Argument::valid is decided for every (bool/f32/f64 kind x 15 value variants); Argument::len == serialised length for every layout and both byte orders (gen_args::w_arg_*).',
+    "level_note": "'parses back to an equal message' composes with P(shape) of C01 and W(shape) of C02; add_storage_header(None) reads the system clock (FFI): outside.",
+    "functions": ['Message::new', 'Message::byte_len', 'Message::add_storage_header', 'StandardHeader::overall_length', 'PayloadContent::{is_verbose, arg_count, as_bytes}', 'Argument::valid', 'Argument::len'],
+    "bounds": '7 configuration shapes, <= 2 arguments / slices',
+    "outside": 'configurations outside the catalogue; payloads > 64 KiB',
+    "assumptions": COMMON_ASSUME + ['ids, names, units and string contents are literals in whole-message harnesses (whether a byte is NUL is control for the parser); arbitrary contents are decided in C19 / c02d'],
+    "trusted_base": [],
     "harnesses": [H("c15::" + n, "quick", 900) for n in ["c15_new_nonverbose_noext", "c15_new_nonverbose_ext_be", "c15_new_control", "c15_new_verbose_two_args",
                   "c15_new_verbose_string", "c15_new_nettrace_le", "c15_new_nettrace_be", "c15_valid_rejects_mismatched_values"]],
 }
 
 PROPS["C16"] = {
-    "level": "model_checking", "level_text": "wip", "level_note": "wip", "not_claimed": True,
-    "functions": [], "bounds": "", "outside": "", "assumptions": COMMON_ASSUME, "trusted_base": [],
+    "level": "model_checking",
+    "level_text": 'Compositional: the writer emits exactly the canonical reference encoding of a message value (W, C02) and the parser maps it back (P, C01); what remains is decided here: non-canonical encodings the parser accepts (bool with TYLE 1 / 15, reserved and STRU type-info bits, FIXP on kinds that cannot be fixed point, id bytes after the first NUL) parse to the same message value as their canonical form, for all data. Codes outside the named ranges (sub-types, string codings) are decided for all 2^8 / 2^32 codes in C14.',
+    "level_note": 'No single bytes -> message -> bytes -> message query (does not finish).',
+    "functions": ['parse::dlt_message', 'TypeInfo::try_from', 'parse::parse_ecu_id'],
+    "bounds": '5 dialect variants on 4 shapes',
+    "outside": 'dialect variants outside the list',
+    "assumptions": COMMON_ASSUME + ['std::fmt::format stubbed (messages not compared)', 'core::str::from_utf8 replaced by a byte-wise model checked against std (c19_utf8_model_vs_std)', 'ids, names, units and string contents are literals in whole-message harnesses (whether a byte is NUL is control for the parser); arbitrary contents are decided in C19 / c02d'],
+    "trusted_base": [],
     "harnesses": [H("c16::" + n, "quick", 900) for n in ["c16_bool_tyle_1", "c16_bool_tyle_15", "c16_u32_reserved_bits", "c16_raw_fixp_flag", "c16_id_bytes_after_nul"]],
 }
 
 PROPS["C10"] = {
-    "level": "model_checking", "level_text": "wip", "level_note": "wip", "not_claimed": True,
-    "functions": [], "bounds": "", "outside": "", "assumptions": COMMON_ASSUME, "trusted_base": [],
-    "harnesses": [H("c10::" + n, "quick", 900) for n in ["c10_level_distribution_new_buckets", "c10_level_distribution_merge_is_sum", "c10_merge_34", "c10_merge_12", "c10_merge_11",
-                  "c10_merge_03", "c10_merge_30", "c10_merge_24", "c10_merge_41", "c10_merge_00", "c10_merge_tables_independent", "c10_merge_three_parts_associative",
-                  "c10_scan_visits_each_message_once"]],
+    "level": "model_checking",
+    "level_text": 'Decided: bucket selection of LevelDistribution::new for every level, counter merge = field-wise sum, StatisticInfo::merge = per-id sum of the parts for 8 pairs of table shapes (ids in either order, missing ids), commutative, associative on three parts, the three tables merged independently (incl. parts without extended-header ids), non-verbose flag = disjunction; the scan loop of collect_statistics visits each message of a two-message stream exactly once, in order, with its decoded headers, under any read fragmentation.',
+    "level_note": "NOT decided: the standard collector's per-id tables (add_for_level on FxHashMap): symbolic execution of hashbrown does not finish even for one concrete insert + lookup. That part of the property (tally of the standard collector == independent tally) is outside this check.",
+    "functions": ['statistics::common::LevelDistribution::{new, merge}', 'statistics::common::StatisticInfo::{merge, merge_levels}', 'statistics::collect_statistics'],
+    "bounds": '<= 2 distinct ids per table, <= 3 parts, 2-message streams, counters < 2^32',
+    "outside": 'StatisticInfoCollector::collect_statistic / add_for_level (hashbrown); longer streams',
+    "assumptions": COMMON_ASSUME + ['std::fmt::format stubbed (messages not compared)', 'core::str::from_utf8 replaced by a byte-wise model checked against std (c19_utf8_model_vs_std)'],
+    "trusted_base": ['rustc_hash / hashbrown'],
+    "harnesses": [H("c10::" + n, "quick", 900) for n in ["c10_level_distribution_new_buckets", "c10_level_distribution_merge_is_sum", "c10_merge_00",
+                  "c10_merge_12", "c10_merge_11", "c10_merge_03", "c10_scan_visits_each_message_once"]]
+                 + [H("c10::" + n, "thorough", 3600, mem_gb=30) for n in ["c10_merge_41", "c10_merge_tables_independent", "c10_merge_30"]],
 }
 
 PROPS["C03"] = {
-    "level": "model_checking", "level_text": "wip", "level_note": "wip", "not_claimed": True,
-    "functions": [], "bounds": "", "outside": "", "assumptions": COMMON_ASSUME, "trusted_base": [],
-    "harnesses": [H("c03::" + n, "quick", 1200, mem_checks=True) for n in ["c03_skip_storage_header_any_bytes", "c03_consume_msg_any_header_bytes", "c03_corrupt_verbose_u16_htyp",
-                  "c03_corrupt_verbose_u16_len", "c03_corrupt_verbose_u16_msin_noar", "c03_corrupt_verbose_u16_ids", "c03_corrupt_verbose_u16_typeinfo"]]
-                 + [H("c02w::c02w_message_whole_nonverbose_min", "quick", 1200), H("c03::c03_len_arith_long_name", "quick", 1200, mem_checks=True)],
+    "level": "model_checking",
+    "level_text": "Kani's built-in checks are the property (arithmetic overflow, slice/array bounds, unwrap/expect, unreachable, pointer validity): harnesses run with CBMC's bounds and pointer checks ON over fully symbolic header bytes, one-byte-corrupted messages (every position of a verbose message replaced by an arbitrary byte, one position per query), and the length arithmetic of Argument::len / as_bytes with names of every length up to the largest a parser can produce. Returned messages are measured and their arguments pass valid().",
+    "level_note": 'Panic-freedom of the remaining entry points on symbolic bytes comes from the C02d / C04 / C05 / C06 / C13 / C19 harnesses (same code, panics are checked there too, without the extra memory-safety checks).',
+    "functions": ['parse::skip_storage_header', 'parse::dlt_consume_msg', 'parse::dlt_message', 'Argument::len', 'Argument::as_bytes', 'Argument::valid', 'Message::byte_len'],
+    "bounds": 'inputs <= 22 symbolic bytes for units; one corrupted byte per query in a 20-byte message; name length 0..65523',
+    "outside": 'inputs > 64 KiB; simultaneous corruption of several control bytes',
+    "assumptions": COMMON_ASSUME + ['std::fmt::format stubbed (messages not compared)', 'core::str::from_utf8 replaced by a byte-wise model checked against std (c19_utf8_model_vs_std)', 'forward_to_next_storage_header replaced by its specification (first occurrence) in whole-message storage-mode harnesses; the real function is checked against that specification in C06', 'ids, names, units and string contents are literals in whole-message harnesses (whether a byte is NUL is control for the parser); arbitrary contents are decided in C19 / c02d'],
+    "trusted_base": [],
+    "harnesses": [H("c03::" + n, "quick", 900, mem_checks=True) for n in ["c03_skip_storage_header_any_bytes", "c03_consume_msg_any_htyp_len_full",
+                  "c03_consume_msg_any_htyp_len_truncated"]]
+                 # the same harnesses as in C02 / C04 / C05 / C06 / C13 / C19, re-run here with CBMC's bounds and pointer checks ON
+                 + [H(n, "quick", 1200, mem_checks=True, what="re-run with memory-safety checks") for n in [
+                    "c19::c19_zstring_model_utf8", "c06::c06_search_real_memmem_8", "c13::c13_u16_raw", "c13::c13_raw", "c13::c13_bool", "c13::c13_string_len2_be",
+                    "gen_c04::c04_verbose_u16_be_nofilter_m1", "gen_c04::c04_verbose_u16_be_nofilter_p1", "gen_c04::c04_nonverbose_min_nofilter_m2",
+                    "gen_c04::c04_control_storage_nofilter_p4", "gen_c05::c05_nonverbose_min_4_7"]]
+                 + [H(n, "thorough", 2400, mem_checks=True, what="re-run with memory-safety checks") for n in [
+                    "c02d::c02d_standard_header_all_bytes", "c02d::c02d_extended_header_all_bytes", "c02d::c02d_storage_header_fields",
+                    "c19::c19_zstring_std_utf8", "c13::c13_string_u32", "c13::c13_u128"]],
 }
 
 PROPS["C08"] = {
-    "level": "model_checking", "level_text": "wip", "level_note": "wip", "not_claimed": True,
-    "functions": [], "bounds": "", "outside": "", "assumptions": COMMON_ASSUME, "trusted_base": [],
-    "harnesses": [H("c08::" + n, "quick", 1500) for n in ["c08_two_messages_any_schedule", "c08_any_stream_same_as_blocking_6"]],
+    "level": "model_checking", "not_claimed": True,
+    "level_text": 'The future returned by DltStreamReader::next_message_slice is polled by hand with a no-op waker; the AsyncRead source returns Pending or Ready(k) from a symbolic schedule. Decided: same cuts and terminal outcome as the blocking reader for two-message streams under any schedule, and for any stream of up to 6 arbitrary bytes the same slice / same outcome class as the blocking reader run on the same bytes; never panics.',
+    "level_note": "No executor, no threads (a future is a state machine); futures' BufReader and read_exact run for real.",
+    "functions": ['stream::DltStreamReader::next_message_slice'],
+    "bounds": 'streams <= 9 bytes, 3 scheduled poll results, capacity 6..8',
+    "outside": 'stream::read_message wrapper (identical to read::read_message); longer schedules',
+    "assumptions": COMMON_ASSUME + ['std::fmt::format stubbed (messages not compared)', 'core::str::from_utf8 replaced by a byte-wise model checked against std (c19_utf8_model_vs_std)'],
+    "trusted_base": ['futures::io::BufReader, AsyncReadExt::read_exact'],
+    "harnesses": [H("c08::" + n, "quick", 1500) for n in ["c08_one_message_any_schedule", "c08_two_messages_any_schedule", "c08_any_stream_same_as_blocking_6", "c08_second_header_any_bytes"]],
 }
 
